@@ -97,6 +97,12 @@ func leanBytes(s string) string {
 	return sb.String()
 }
 
+// leanComment makes a spelling safe inside a Lean block comment.
+func leanComment(s string) string {
+	s = strings.ReplaceAll(s, "-/", "- /")
+	return strings.ReplaceAll(s, "/-", "/ -")
+}
+
 // writeIntTable emits `def name : List Int` as literal chunks (kernel-friendly, see DESIGN §4.1).
 func writeIntTable(sb *strings.Builder, name string, xs []int) {
 	const chunk = 64
@@ -477,7 +483,7 @@ func genLalr(repo, out string) error {
 		if i > 0 {
 			sb.WriteString(",")
 		}
-		fmt.Fprintf(&sb, "\n  (%s, %s) /- %s -/", leanBytes(k.word), k.tok, k.word)
+		fmt.Fprintf(&sb, "\n  (%s, %s) /- %s -/", leanBytes(k.word), k.tok, leanComment(k.word))
 	}
 	sb.WriteString("]\n\n")
 	sb.WriteString("/-- Operator constants of operator.go (iota + 1) -/\n")
@@ -515,7 +521,7 @@ func genLalr(repo, out string) error {
 			}
 			op = o.op
 		}
-		fmt.Fprintf(&sb, "\n  (%s, %s, %s) /- %s -/", leanBytes(o.spelling), o.tok, op, o.spelling)
+		fmt.Fprintf(&sb, "\n  (%s, %s, %s) /- %s -/", leanBytes(o.spelling), o.tok, op, leanComment(o.spelling))
 	}
 	sb.WriteString("]\n\n")
 	sb.WriteString("/-- operator.go Operator.String: operator, spelling as bytes -/\ndef operatorSpellings : List (Nat × List UInt8) := [")
@@ -527,7 +533,7 @@ func genLalr(repo, out string) error {
 		if i > 0 {
 			sb.WriteString(",")
 		}
-		fmt.Fprintf(&sb, "\n  (%s, %s) /- %s -/", o, leanBytes(sp), sp)
+		fmt.Fprintf(&sb, "\n  (%s, %s) /- %s -/", o, leanBytes(sp), leanComment(sp))
 	}
 	sb.WriteString("]\n\n")
 	sb.WriteString("/-- productions of parser.go.y in goyacc numbering (index = rule number; 0 = augmented rule) -/\ndef ruleSigs : List String := [\n  \"$accept: program $end\"")
